@@ -93,19 +93,28 @@ bool RSNHandshakeCapturer::do_insert(const handshake_map::key_type& key,
                                      const RSNEAPOL* eapol,
                                      size_t expected) {
     handshake_map::iterator iter = handshakes_.find(key);
-    if (iter != handshakes_.end()) {
-        if (iter->second.size() != expected) {
-            // Skip repeated messages (retransmissions of one we already have).
-            // Only discard the handshake if a previous message is missing.
-            if (iter->second.size() < expected) {
-                iter->second.clear();
-            }
+    if (iter != handshakes_.end() && iter->second.size() == expected) {
+        // Only take messages that belong to the exchange we are following: the
+        // supplicant echoes the replay counter of the message it answers and
+        // the authenticator increments it on every message it sends
+        const uint64_t counter = eapol->replay_counter();
+        bool belongs;
+        if (expected == 1) {
+            belongs = counter == iter->second[0].replay_counter();
+        }
+        else if (expected == 2) {
+            belongs = counter > iter->second[0].replay_counter();
         }
         else {
+            belongs = counter >= iter->second[2].replay_counter();
+        }
+        if (belongs) {
             iter->second.push_back(*eapol);
             return true;
         }
     }
+    // Anything else is a retransmission of a message we already hold or a late
+    // message of an earlier exchange: ignore it and keep what we captured
     return false;
 }
 
